@@ -22,12 +22,15 @@
    free-cluster count, this one carries F and B.  call_frame then says what F and B may contain, in
    terms of the state BEFORE the call: clusters on the chains of the TARGET heads tg, clusters that
    were free (allocated by the call); blocks of the chains wch (Write only), blocks of clusters that
-   were free, the one block of the slot sl (with the exact new contents), the information sector. *)
+   were free, the one block of the slot sl (with the exact new contents), the information sector.
+   val_ok (carried along the same segments) bounds the VALUES: an entry that changed is free, holds the
+   end-of-chain mark, or links to a cluster that was free - so no call links anything to a cluster that
+   was in use, and a head that is no target stays a head (PrFrameHist4.cf_head_persists). *)
 From Coq Require Import NArith ZArith List Bool Lia Arith ZifyClasses ZifyInst Zify Permutation.
 From SdFs Require Import FsTypes FsBase FsFat FsMgr FsLemmas PrBase PrFat PrAlloc PrDir PrSeek PrAllocEffect
   PrRw PrWrite PrFileSeq PrMulti PrEntry PrChain PrCount PrWf PrOpenClose PrGlobalDef PrGlobalWrite
   PrGlobalOpen PrGlobalOpen2.
-From SdFs Require PrModes PrHandles PrCrash PrBounds PrOrder PrGlobal PrCrashDef3 PrC16Write.
+From SdFs Require PrModes PrHandles PrCrash PrBounds PrOrder PrGlobal PrCrashDef3 PrCrashDef4 PrC16Write.
 Import ListNotations.
 Open Scope N_scope.
 Local Arguments N.mul : simpl never.
@@ -147,6 +150,72 @@ Proof.
   - intros j Hj _. exact (fe_frame _ _ _ _ _ _ _ Heff j Hj).
 Qed.
 
+(* ---- the VALUES the entries take ---- *)
+(* every entry has its old value, or is free, or holds the end-of-chain mark, or links to a cluster that
+   was free in d: no call ever makes an entry point at a cluster that was in use *)
+Definition val_ok (v : vol) (fsz : N) (d d' : disk) : Prop :=
+  forall x, fidx v fsz x ->
+    fat_get d' v 0 x = fat_get d v 0 x \/ fat_get d' v 0 x = 0 \/ fat_get d' v 0 x = enc v CL_EOF \/
+    exists c2, free_cl d v c2 /\ fat_get d' v 0 x = enc v c2.
+
+Lemma val_refl v fsz d : val_ok v fsz d d.
+Proof. intros x _. left. reflexivity. Qed.
+
+Lemma val_eq v fsz d d' : d' = d -> val_ok v fsz d d'.
+Proof. intros ->. apply val_refl. Qed.
+
+Lemma val_geo v w fsz d d' : geo_eq v w -> val_ok v fsz d d' -> val_ok w fsz d d'.
+Proof. intros (a & b & ->) H. exact H. Qed.
+
+(* a segment that leaves the FAT alone *)
+Lemma val_same v fsz d d1 d2 B : val_ok v fsz d d1 -> fr v fsz [] B d1 d2 -> val_ok v fsz d d2.
+Proof. intros H (Ff & _) x Hx. rewrite (Ff x Hx (fun F => F)). exact (H x Hx). Qed.
+
+(* one allocation of a cluster that was free in d (the volume record w of the moment has the geometry of v) *)
+Lemma val_alloc vi v w fsz prev (zero : bool) s c s' d : geo_eq v w ->
+  val_ok v fsz d (s_disk s) -> alloc_eff vi w fsz prev zero s c s' -> free_cl d v c -> prev <> Some c ->
+  val_ok v fsz d (s_disk s').
+Proof.
+  intros G H Heff Hfree Hpc x Hx.
+  assert (Gf : forall dd y, fat_get dd w 0 y = fat_get dd v 0 y) by (intros dd y; destruct G as (a & b & ->); reflexivity).
+  assert (Ge : forall y, enc w y = enc v y) by (intros y; destruct G as (a & b & ->); reflexivity).
+  assert (Hxw : (x * fat_width w) / 512 < fsz) by (destruct G as (a & b & ->); exact Hx).
+  destruct (N.eq_dec x c) as [->|Hnc].
+  - right. right. left. rewrite <- Gf, <- Ge. exact (ae_new _ _ _ _ _ _ _ _ Heff Hpc).
+  - destruct prev as [p|].
+    + destruct (N.eq_dec x p) as [->|Hnp].
+      * right. right. right. exists c. split; [exact Hfree|]. rewrite <- Gf, <- Ge. exact (ae_prev _ _ _ _ _ _ _ _ Heff p eq_refl).
+      * rewrite <- Gf, (ae_other _ _ _ _ _ _ _ _ Heff x Hxw Hnc ltac:(intros E; injection E as E; exact (Hnp (eq_sym E)))), Gf. exact (H x Hx).
+    + rewrite <- Gf, (ae_other _ _ _ _ _ _ _ _ Heff x Hxw Hnc ltac:(discriminate)), Gf. exact (H x Hx).
+Qed.
+
+Lemma val_trunc vi v w fsz s c rest s' d : geo_eq v w ->
+  val_ok v fsz d (s_disk s) -> trunc_eff vi w fsz s c rest s' -> val_ok v fsz d (s_disk s').
+Proof.
+  intros G H Heff x Hx.
+  assert (Gf : forall dd y, fat_get dd w 0 y = fat_get dd v 0 y) by (intros dd y; destruct G as (a & b & ->); reflexivity).
+  assert (Ge : forall y, enc w y = enc v y) by (intros y; destruct G as (a & b & ->); reflexivity).
+  assert (Hxw : (x * fat_width w) / 512 < fsz) by (destruct G as (a & b & ->); exact Hx).
+  destruct (in_dec N.eq_dec x rest) as [Hin|Hnin].
+  - right. left. rewrite <- Gf. exact (te_freed _ _ _ _ _ _ _ Heff x Hin).
+  - destruct (N.eq_dec x c) as [->|Hnc].
+    + destruct rest as [|r0 rs].
+      * rewrite <- Gf, (te_other _ _ _ _ _ _ _ Heff c Hxw Hnin (fun _ => eq_refl)), Gf. exact (H c Hx).
+      * right. right. left. rewrite <- Gf, <- Ge. apply (te_head _ _ _ _ _ _ _ Heff). discriminate.
+    + rewrite <- Gf, (te_other _ _ _ _ _ _ _ Heff x Hxw Hnin (fun E => False_ind _ (Hnc E))), Gf. exact (H x Hx).
+Qed.
+
+Lemma val_free vi v w fsz s c rest s' d : geo_eq v w ->
+  val_ok v fsz d (s_disk s) -> free_eff vi w fsz s c rest s' -> val_ok v fsz d (s_disk s').
+Proof.
+  intros G H Heff x Hx.
+  assert (Gf : forall dd y, fat_get dd w 0 y = fat_get dd v 0 y) by (intros dd y; destruct G as (a & b & ->); reflexivity).
+  assert (Hxw : (x * fat_width w) / 512 < fsz) by (destruct G as (a & b & ->); exact Hx).
+  destruct (in_dec N.eq_dec x (c :: rest)) as [Hin|Hnin].
+  - right. left. rewrite <- Gf. exact (fe_freed _ _ _ _ _ _ _ Heff x Hin).
+  - rewrite <- Gf, (fe_other _ _ _ _ _ _ _ Heff x Hxw Hnin), Gf. exact (H x Hx).
+Qed.
+
 (* ================================================================== 1. what a call may change *)
 (* hs: the chain heads of the state before the call (heads v T ++ pend_of s v).
    tg: the TARGET heads - the chains the call owns; wch: those among them whose data blocks it may
@@ -157,9 +226,11 @@ Qed.
      of the slot, or the FAT32 information sector;
    - the block of the slot: a directory block; its new contents are the old ones with the bytes at the
      offset replaced - or (the directory had to grow) a zeroed block of a cluster that was free, with
-     those bytes put in *)
+     those bytes put in;
+   - val_ok: an entry that changed is now free, an end-of-chain mark, or a link to a cluster that was free *)
 Definition call_frame (fsz : N) (v : vol) (hs : list N) (d d' : disk)
                       (tg wch : list N) (sl : option (N * N * list N)) : Prop :=
+  val_ok v fsz d d' /\
   exists F B, fr v fsz F B d d' /\ incl tg hs /\ incl wch tg /\
     (forall c, In c F -> In c (flat_map (chain_l d v) tg) \/ free_cl d v c) /\
     (forall j, In j B -> In j (data_blocks v (flat_map (chain_l d v) wch)) \/
@@ -173,7 +244,7 @@ Definition call_frame (fsz : N) (v : vol) (hs : list N) (d d' : disk)
 (* nothing changed *)
 Lemma call_frame_same fsz v hs d d' : d' = d -> call_frame fsz v hs d d' [] [] None.
 Proof.
-  intros E. exists [], []. split; [exact (fr_eq v fsz d d' E)|].
+  intros E. split; [exact (val_eq v fsz d d' E)|]. exists [], []. split; [exact (fr_eq v fsz d d' E)|].
   split; [intros x []|]. split; [intros x []|]. split; [intros c []|]. split; [intros j []|].
   intros j off b H. discriminate H.
 Qed.
@@ -209,7 +280,8 @@ Definition op_owns (s : st) (v : vol) (o : op) (tg wch : list N) (sl : option (N
       (* truncation: the chain and the slot of the file found; creation: a free slot of the directory,
          whose chain is extended when it has none *)
       wch = [] /\
-      (forall h, In h tg -> (exists e, dir_entry s v dh name e /\ e_cluster e = h) \/ dir_head s v dh h) /\
+      (forall h, In h tg -> (PrCrashDef4.truncating md = true /\ exists e, dir_entry s v dh name e /\ e_cluster e = h) \/
+                            dir_head s v dh h) /\
       (forall j off b, sl = Some (j, off, b) -> length b = 32%nat /\
          ((exists e, dir_entry s v dh name e /\ j = e_block e /\ off = e_offset e) \/
           dir_free_slot s v dh j off \/ (exists c, free_cl (s_disk s) v c /\ j = cluster_first_block v c /\ off = 0)))
@@ -328,6 +400,9 @@ Proof.
     - apply Hfr1. intros E. apply (PrC16Write.c16_dir_not_info v _ fsz blk PL Hdir). split; [exact E32|exact E].
     - rewrite (Hsame (or_introl eq_refl)). reflexivity. }
   exists s'. split; [exact Hrun|]. split; [exact Hm'|].
+  split.
+  { apply (val_same v fsz _ (s_disk s1) _ [blk]); [exact (val_same v fsz _ _ _ _ (val_refl v fsz _) F1)|].
+    rewrite Hd'. exact (fr_set v fsz (s_disk s1) blk _ Hoffb). }
   eexists. eexists. split.
   { eapply fr_trans; [exact F1|]. rewrite Hd'. exact (fr_set v fsz (s_disk s1) blk _ Hoffb). }
   split; [intros x []|]. split; [intros x []|]. split; [intros c Hc0; cbn [app] in Hc0; destruct Hc0|]. split.
@@ -469,7 +544,8 @@ Section FfLoop.
        write_loop (S fu) fi vi data s = write_loop fu fi vi (skipn (N.to_nat tc) data) s' /\
        wl_inv fsz vi fi first v' (ch ++ [c]) f' s' /\ f_offset f' = f_offset f + tc /\
        geo_eq v v' /\ free_cl (s_disk s) v c /\
-       fr v fsz (ch ++ [c]) (data_blocks v (ch ++ [c])) (s_disk s) (s_disk s'))
+       fr v fsz (ch ++ [c]) (data_blocks v (ch ++ [c])) (s_disk s) (s_disk s') /\
+       (forall d0, val_ok v fsz d0 (s_disk s) -> free_cl d0 v c -> val_ok v fsz d0 (s_disk s')))
     \/ (exists s',
        write_loop (S fu) fi vi data s = (Err DiskFull, s') /\ s_disk s' = s_disk s).
   Proof.
@@ -543,7 +619,9 @@ Section FfLoop.
     { rewrite Hblk0 at 1. apply In_cluster_blocks_intro. exact Hspc. }
     assert (Hchains : forall x fu0, chain_of (s_disk s') v x fu0 = chain_of (s_disk s2) v x fu0).
     { intros x fu0. rewrite Hd', Hblk0. apply chain_of_data_write; [exact (layout_below_data v fsz L)|exact R1]. }
-    exists v', c, f', s'. split; [exact Hrun|]. split; [|split; [exact F1|split; [exists nf, fc; reflexivity|split; [exact Hfree|]]]].
+    assert (Fb : fr v fsz [] [cluster_first_block v c] (s_disk s2) (s_disk s')).
+    { rewrite Hd'. apply fr_set. exact (cluster_block_off_fat fsz v c _ L R1 Hblk_in). }
+    exists v', c, f', s'. split; [exact Hrun|]. split; [|split; [exact F1|split; [exists nf, fc; reflexivity|split; [exact Hfree|split]]]].
     - constructor.
       + split; [|split; assumption]. split; [exact Hnf'|]. split; [exact Hc'|].
         split; [rewrite Hvols', Evols; eapply PrRw.nth_error_list_set_same; exact (proj1 (proj2 (proj2 (proj1 Hpre1))))|].
@@ -567,8 +645,11 @@ Section FfLoop.
       + intros x [<-|[<-|[]]]; apply in_or_app; [right; left; reflexivity|left].
         eapply nth_error_In. exact Hcl.
       + intros x [<-|[]]. apply in_data_blocks. exists c. split; [apply in_or_app; right; left; reflexivity|exact Hblk_in].
-      + apply (fr_trans v fsz _ _ _ _ _ _ _ Fa). rewrite Hd'. apply fr_set.
-        exact (cluster_block_off_fat fsz v c _ L R1 Hblk_in).
+      + exact (fr_trans v fsz _ _ _ _ _ _ _ Fa Fb).
+    - (* the values: c holds the end-of-chain mark, cl links to c *)
+      intros d0 Hv0 Hfree0. apply (val_same v fsz d0 (s_disk s2) _ [cluster_first_block v c]); [|exact Fb].
+      apply (val_alloc vi v v fsz (Some cl) false s1 c s2 d0 (geo_eq_refl v)); [rewrite (proj1 Hro1); exact Hv0|exact Heff|exact Hfree0|].
+      intros E. injection E as E. subst cl. apply Hclnz. rewrite (proj1 Hro1) in R3. exact R3.
   Qed.
 
   (* the whole loop, any fuel, any outcome: ext = the clusters appended, all free before *)
@@ -576,11 +657,14 @@ Section FfLoop.
     wl_inv fsz vi fi first v ch f s -> f_offset f + N.of_nat (length data) < U32 ->
     forall o sf, write_loop fuel fi vi data s = (o, sf) ->
       exists ext, Forall (free_cl (s_disk s) v) ext /\
-        fr v fsz (ch ++ ext) (data_blocks v (ch ++ ext)) (s_disk s) (s_disk sf).
+        fr v fsz (ch ++ ext) (data_blocks v (ch ++ ext)) (s_disk s) (s_disk sf) /\
+        (forall d0, val_ok v fsz d0 (s_disk s) -> (forall c, free_cl (s_disk s) v c -> free_cl d0 v c) ->
+                    val_ok v fsz d0 (s_disk sf)).
   Proof.
     assert (Hidle : forall v ch d, exists ext, Forall (free_cl d v) ext /\
-              fr v fsz (ch ++ ext) (data_blocks v (ch ++ ext)) d d).
-    { intros v ch d. exists []. split; [constructor|].
+              fr v fsz (ch ++ ext) (data_blocks v (ch ++ ext)) d d /\
+              (forall d0, val_ok v fsz d0 d -> (forall c, free_cl d v c -> free_cl d0 v c) -> val_ok v fsz d0 d)).
+    { intros v ch d. exists []. split; [constructor|]. split; [|intros d0 H _; exact H].
       apply (fr_weaken v fsz [] []); [intros x []|intros x []|apply fr_refl]. }
     induction fuel as [|fu IH]; intros data v ch f s Hinv H32 o sf Hrun.
     { injection Hrun as _ <-. apply Hidle. }
@@ -598,37 +682,45 @@ Section FfLoop.
         as (f1 & s1 & Hrun1 & Hinv1 & Hoff1 & Hfr1).
       fold off tc in Hrun1, Hoff1. rewrite Hrun1 in Hrun.
       destruct (IH _ v ch f1 s1 Hinv1 ltac:(rewrite Hoff1, Hrest_len; clear - H32 Htc; lia) o sf Hrun)
-        as (ext & Hext & Hfr).
-      exists ext. split.
-      + rewrite Forall_forall in *. intros c Hc. destruct (Hext c Hc) as (A1 & A2 & A3).
-        split; [exact A1|]. split; [exact A2|].
+        as (ext & Hext & Hfr & Hval).
+      destruct (wi_pre _ _ _ _ _ _ _ _ Hinv) as (_ & L & _).
+      assert (Hback : forall c, free_cl (s_disk s1) v c -> free_cl (s_disk s) v c).
+      { intros c (A1 & A2 & A3). split; [exact A1|]. split; [exact A2|].
         transitivity (fat_get (s_disk s1) v 0 c); [symmetry|exact A3].
-        apply (proj1 Hfr1); [|intros []].
-        destruct (wi_pre _ _ _ _ _ _ _ _ Hinv) as (_ & L & _). exact (fidx_range v fsz c L A2).
+        apply (proj1 Hfr1); [exact (fidx_range v fsz c L A2)|intros []]. }
+      exists ext. split; [|split].
+      + rewrite Forall_forall in *. intros c Hc. exact (Hback c (Hext c Hc)).
       + apply (fr_weaken v fsz ([] ++ (ch ++ ext)) (data_blocks v ch ++ data_blocks v (ch ++ ext))).
         * intros x Hx. exact Hx.
         * intros x Hx. apply in_app_or in Hx. destruct Hx as [Hx|Hx]; [|exact Hx].
           rewrite data_blocks_app. apply in_or_app. left. exact Hx.
         * exact (fr_trans v fsz _ _ _ _ _ _ _ Hfr1 Hfr).
+      + intros d0 Hv0 Hm0. apply Hval; [exact (val_same v fsz d0 _ _ _ Hv0 Hfr1)|].
+        intros c Hc. exact (Hm0 c (Hback c Hc)).
     - assert (Hend : off = N.of_nat (length ch) * bytes_per_cluster v) by (clear - Hge Hoff Hsize; lia).
       destruct (ff_step_at_end fu v ch f data s Hinv Hdata ltac:(fold off; clear - H32; lia) Hend)
-        as [(v1 & c & f1 & s1 & Hrun1 & Hinv1 & Hoff1 & G & Hfree & Hfr1)|(s1 & Hrun1 & Hd1)].
+        as [(v1 & c & f1 & s1 & Hrun1 & Hinv1 & Hoff1 & G & Hfree & Hfr1 & Hval1)|(s1 & Hrun1 & Hd1)].
       + fold off tc in Hrun1, Hoff1. rewrite Hrun1 in Hrun.
         destruct (IH _ v1 (ch ++ [c]) f1 s1 Hinv1 ltac:(rewrite Hoff1, Hrest_len; clear - H32 Htc; lia) o sf Hrun)
-          as (ext & Hext & Hfr).
+          as (ext & Hext & Hfr & Hval).
         apply (fr_geo v1 v fsz _ _ _ _ (geo_sym _ _ G)) in Hfr. rewrite (data_blocks_geo v v1 _ G) in Hfr.
         destruct (wi_pre _ _ _ _ _ _ _ _ Hinv) as (_ & L & _).
         destruct (wi_chain _ _ _ _ _ _ _ _ Hinv1) as (fu1 & Hch1).
-        exists (c :: ext). split.
-        * constructor; [exact Hfree|].
-          rewrite Forall_forall in *. intros x Hx. destruct (free_cl_geo _ v v1 x G (Hext x Hx)) as (A1 & A2 & A3).
+        (* a cluster that is free after the step was free before: the clusters of the chain are not free *)
+        assert (Hback : forall x, free_cl (s_disk s1) v1 x -> free_cl (s_disk s) v x).
+        { intros x Hx. destruct (free_cl_geo _ v v1 x G Hx) as (A1 & A2 & A3).
           split; [exact A1|]. split; [exact A2|].
           transitivity (fat_get (s_disk s1) v 0 x); [symmetry|exact A3].
           apply (proj1 Hfr1); [exact (fidx_range v fsz x L A2)|].
-          (* x is free after the step, the clusters of the chain are not *)
           intros Hin.
           destruct (chain_at_mem (s_disk s1) v1 first (ch ++ [c]) x (chain_at_any _ _ _ _ _ Hch1) Hin) as (_ & _ & Z & _).
-          apply Z. destruct G as (a & b & ->). exact A3.
+          apply Z. destruct G as (a & b & ->). exact A3. }
+        exists (c :: ext). split; [|split].
+        3:{ intros d0 Hv0 Hm0. apply (val_geo v1 v fsz _ _ (geo_sym _ _ G)). apply Hval.
+            - apply (val_geo v v1 fsz _ _ G). exact (Hval1 d0 Hv0 (Hm0 c Hfree)).
+            - intros x Hx. destruct G as (a & b & ->). exact (Hm0 x (Hback x Hx)). }
+        * constructor; [exact Hfree|].
+          rewrite Forall_forall in *. intros x Hx. exact (Hback x (Hext x Hx)).
         * replace (ch ++ c :: ext) with ((ch ++ [c]) ++ ext) by (rewrite <- app_assoc; reflexivity).
           apply (fr_weaken v fsz ((ch ++ [c]) ++ ((ch ++ [c]) ++ ext))
                    (data_blocks v (ch ++ [c]) ++ data_blocks v ((ch ++ [c]) ++ ext))).
@@ -651,7 +743,9 @@ Lemma ff_loop_tail fsz vi fi first fuel data v ch f s o s' :
   wl_inv fsz vi fi first v ch f s -> f_offset f + N.of_nat (length data) < U32 ->
   (write_loop fuel fi vi data ;;; mw_tail fi) s = (o, s') ->
   exists ext, Forall (free_cl (s_disk s) v) ext /\
-    fr v fsz (ch ++ ext) (data_blocks v (ch ++ ext)) (s_disk s) (s_disk s').
+    fr v fsz (ch ++ ext) (data_blocks v (ch ++ ext)) (s_disk s) (s_disk s') /\
+    (forall d0, val_ok v fsz d0 (s_disk s) -> (forall c, free_cl (s_disk s) v c -> free_cl d0 v c) ->
+                val_ok v fsz d0 (s_disk s')).
 Proof.
   intros Hinv H32 Hrun. unfold bind in Hrun.
   destruct (write_loop fuel fi vi data s) as [o1 s1] eqn:Eloop.
@@ -670,14 +764,17 @@ Qed.
 Theorem ff_mgr_write fsz h data s fi f vi v ch o s' :
   mw_pre fsz h s fi f vi v ch -> mgr_write h data s = (o, s') ->
   exists ext, Forall (free_cl (s_disk s) v) ext /\
-    fr v fsz (ch ++ ext) (data_blocks v (ch ++ ext)) (s_disk s) (s_disk s').
+    fr v fsz (ch ++ ext) (data_blocks v (ch ++ ext)) (s_disk s) (s_disk s') /\
+    val_ok v fsz (s_disk s) (s_disk s').
 Proof.
   intros Hmw Hrun.
   pose proof Hmw as [Hl Hh Hfi Hvol Hpre Hfit Hspc Hwf Hchain Hoff Hsize H32].
   pose proof Hpre as ((Hnf & Hc & Hvi & Hlen) & L & Hh0).
   assert (Hidle : exists ext, Forall (free_cl (s_disk s) v) ext /\
-            fr v fsz (ch ++ ext) (data_blocks v (ch ++ ext)) (s_disk s) (s_disk s)).
-  { exists []. split; [constructor|]. apply (fr_weaken v fsz [] []); [intros x []|intros x []|apply fr_refl]. }
+            fr v fsz (ch ++ ext) (data_blocks v (ch ++ ext)) (s_disk s) (s_disk s) /\
+            val_ok v fsz (s_disk s) (s_disk s)).
+  { exists []. split; [constructor|]. split; [|apply val_refl].
+    apply (fr_weaken v fsz [] []); [intros x []|intros x []|apply fr_refl]. }
   rewrite (mgr_write_unfold h data s fi f vi Hl Hh Hfi Hvol) in Hrun.
   destruct (mode_eqb (f_mode f) ReadOnly) eqn:Hmode.
   { injection Hrun as _ <-. exact Hidle. }
@@ -704,7 +801,10 @@ Proof.
       - apply reset_cursor_ok; [exact (cursor_ok_first v _ _ _ _ A2)|intros _; exact A3].
       - rewrite G1, G2. exact Hoff.
       - rewrite G1. exact Hsize. }
-    exact (ff_loop_tail fsz vi fi _ _ _ v ch _ _ o s' Pinv ltac:(rewrite G2, Hclip; exact HtwM) Hrun).
+    destruct (ff_loop_tail fsz vi fi _ _ _ v ch _ _ o s' Pinv ltac:(rewrite G2, Hclip; exact HtwM) Hrun)
+      as (ext & Hext & Hfr & Hval).
+    exists ext. split; [exact Hext|]. split; [exact Hfr|].
+    exact (Hval (s_disk s) (val_refl v fsz _) (fun c H => H)).
   - (* the file has no cluster yet: one is allocated (prev = None) *)
     assert (E : (e_cluster (f_entry f) <? RESERVED_ENTRIES) = true) by (apply N.ltb_lt; exact A1).
     assert (HprevN : forall p, @None N = Some p -> p < v_clusters v + 2) by (intros p Ep; discriminate Ep).
@@ -756,19 +856,24 @@ Proof.
       change (f_offset fD) with (f_offset f) in Hrun. fold tw in Hrun.
       destruct (ff_loop_tail fsz vi fi c _ _ v' [c] fD (PrRw.upd_file sC fi fD) o s' Pinv
                   ltac:(change (f_offset fD) with (f_offset f); rewrite Hclip; exact HtwM) Hrun)
-        as (ext & Hext & Hfr).
-      change (s_disk (PrRw.upd_file sC fi fD)) with (s_disk s2) in Hext, Hfr.
+        as (ext & Hext & Hfr & Hval).
+      change (s_disk (PrRw.upd_file sC fi fD)) with (s_disk s2) in Hext, Hfr, Hval.
       assert (G : geo_eq v v') by (exists nf, fc; reflexivity).
       apply (fr_geo v' v fsz _ _ _ _ (geo_sym _ _ G)) in Hfr. rewrite (data_blocks_geo v v' _ G) in Hfr.
-      exists (c :: ext). split.
-      * constructor; [exact Hfree|]. rewrite Forall_forall in *. intros x Hx.
-        destruct (free_cl_geo _ v v' x G (Hext x Hx)) as (X1 & X2 & X3).
+      assert (Hback : forall x, free_cl (s_disk s2) v' x -> free_cl (s_disk s) v x).
+      { intros x Hx. destruct (free_cl_geo _ v v' x G Hx) as (X1 & X2 & X3).
         split; [exact X1|]. split; [exact X2|].
         transitivity (fat_get (s_disk s2) v 0 x); [symmetry|exact X3].
         apply (proj1 Fa); [exact (fidx_range v fsz x L X2)|].
         intros [<-|[]]. rewrite <- fat_entry_get in X3. rewrite (af_new _ _ _ _ _ _ _ AF) in X3.
         destruct (eof_is_end v) as (_ & Ee). rewrite X3 in Ee.
-        unfold fat_eoc_min in Ee. destruct (v_fat32 v); discriminate Ee.
+        unfold fat_eoc_min in Ee. destruct (v_fat32 v); discriminate Ee. }
+      exists (c :: ext). split; [|split].
+      3:{ apply (val_geo v' v fsz _ _ (geo_sym _ _ G)). apply Hval.
+          - apply (val_geo v v' fsz _ _ G).
+            apply (val_alloc vi v v fsz None false sA c s2 (s_disk s) (geo_eq_refl v) (val_refl v fsz _) Heff Hfree). discriminate.
+          - intros x Hx. destruct G as (a & b & ->). exact (Hback x Hx). }
+      * constructor; [exact Hfree|]. rewrite Forall_forall in *. intros x Hx. exact (Hback x (Hext x Hx)).
       * cbn [app]. apply (fr_weaken v fsz ([c] ++ ([c] ++ ext)) ([] ++ data_blocks v ([c] ++ ext))).
         -- intros x Hx. apply in_app_or in Hx. destruct Hx as [[<-|[]]|Hx]; [left; reflexivity|exact Hx].
         -- intros x Hx. exact Hx.
@@ -789,7 +894,7 @@ Lemma ff_write_frame fsz vid s vi v bl rch T h data fi f o s' : fs_inv_at fsz vi
 Proof.
   intros Hat Hr Hrun.
   pose proof (gw_mw_pre fsz vid s vi v bl rch T Hat h fi f Hr) as Hmw.
-  destruct (ff_mgr_write fsz h data s fi f vi v _ o s' Hmw Hrun) as (ext & Hext & Hfr).
+  destruct (ff_mgr_write fsz h data s fi f vi v _ o s' Hmw Hrun) as (ext & Hext & Hfr & Hval).
   pose proof Hr as (_ & _ & Hfi). pose proof (nth_error_In _ _ Hfi) as Hfin.
   rewrite Forall_forall in Hext.
   set (tg := if 2 <=? e_cluster (f_entry f) then [e_cluster (f_entry f)] else []).
@@ -798,7 +903,8 @@ Proof.
     - cbn [flat_map]. rewrite app_nil_r. symmetry. apply fchain_l. exact H2.
     - symmetry. apply fchain_nil. exact H2. }
   exists tg. split.
-  - exists (fchain (s_disk s) v f ++ ext), (data_blocks v (fchain (s_disk s) v f ++ ext)).
+  - split; [exact Hval|].
+    exists (fchain (s_disk s) v f ++ ext), (data_blocks v (fchain (s_disk s) v f ++ ext)).
     split; [exact Hfr|]. split.
     { unfold tg. intros x Hx. destruct (N.leb_spec 2 (e_cluster (f_entry f))) as [H2|H2]; [|destruct Hx].
       destruct Hx as [<-|[]]. exact (ofile_in_hs fsz vid s vi v bl rch T Hat f Hfin H2). }
